@@ -1159,13 +1159,6 @@ def canonicalise(repo):
                 k = _unroll_literal_loops(fn)
                 if k:
                     done.append((m.name, fn.name, "<loops over literal tuples unrolled>", k))
-    for m in repo.modules.values():
-        for fn in ast.walk(m.tree):
-            if isinstance(fn, (ast.FunctionDef, ast.AsyncFunctionDef)):
-                k = _ifexp_statements(fn)
-                if k:
-                    done.append((m.name, fn.name, "<conditional expressions as statements>", k))
-    # (2) rename table and (3) new locals, interleaved: a substitution may complete the defining form of another local
     def rename_pass(modname, qual, fn, ent):
         for _ in range(3):     # a few rounds: patterns mention other locals only as metavariables, so one is usually enough
             changed = False
@@ -1186,6 +1179,19 @@ def canonicalise(repo):
         for old, new in _negated_definitions(fn, ent):
             done.append((modname, qual, f"not {old}", new))
 
+    # first rename pass on the tree as written (the defining forms were recorded on the reference tree as written)
+    for (modname, qual), ent in TABLE.items():
+        if modname in repo.modules:
+            fn = _find_fn(repo.modules[modname], qual)
+            if fn is not None:
+                rename_pass(modname, qual, fn, ent)
+    for m in repo.modules.values():
+        for fn in ast.walk(m.tree):
+            if isinstance(fn, (ast.FunctionDef, ast.AsyncFunctionDef)):
+                k = _ifexp_statements(fn)
+                if k:
+                    done.append((m.name, fn.name, "<conditional expressions as statements>", k))
+    # (2) rename table and (3) new locals, interleaved: a substitution may complete the defining form of another local
     nt = {}
     for m in repo.modules.values():
         ref_names = set()
